@@ -654,7 +654,7 @@ def select__index_of(self: XPathFunction, context: ta.ContextType = None) -> Ite
     with CollationManager(collation, self) as manager:
         for pos, result in enumerate(self[0].atomization(context), start=1):
             try:
-                if manager.eq(result, value):
+                if is_comparable(result, value) and manager.eq(result, value):
                     yield pos
             except (TypeError, ValueError, ArithmeticError):
                 continue  # values that cannot be compared are not equal
